@@ -5,6 +5,7 @@ package main
 import (
 	"fmt"
 	"go/token"
+	"go/types"
 	"strings"
 
 	"golang.org/x/tools/go/ssa"
@@ -20,6 +21,9 @@ func round13(c *Ctx, r *Report, p string) {
 		readerPerConnection(c, r, "C12.R5.reader-per-connection")
 	case "C09":
 		keptCountAsReturned(c, r, "C09.R4.kept-count-as-returned")
+	case "C13":
+		callbacksOutsideLock(c, r, "C13.R2.callbacks-outside-lock")
+		refusalDoesNotWait(c, r, "C13.R4.refusal-does-not-wait")
 	}
 }
 
@@ -216,4 +220,106 @@ func keptCountAsReturned(c *Ctx, r *Report, rule string) {
 		}
 		r.check(n > 0 && len(bad) == 0, rule, "Msg.Truncate:"+sec, c.pos(fn.Pos()), "cut at truncateLoop's count", "%s, which is not the count truncateLoop returned for that section: records the walk found to fit are dropped (or records it found not to fit are kept)", strings.Join(uniqStrings(bad), "; "))
 	}
+}
+
+// callbacksOutsideLock: no function-valued field of the Server (NotifyStartedFunc, the decorators, the accept and
+// invalid-message callbacks) is called while Server.lock is held: the callback is the owner's code and may take any
+// time, and everything that needs the lock - a second start that must be refused, ShutdownContext and its context -
+// would wait for it.
+func callbacksOutsideLock(c *Ctx, r *Report, rule string) {
+	r.rule(rule, 1, "no callback field of the Server is called while Server.lock is held")
+	var all []*ssa.Function
+	for _, f := range c.allFuncs() {
+		all = append(all, withAnon(f)...)
+	}
+	isCallbackField := func(v ssa.Value) bool {
+		for x := range sliceOf(v) {
+			fa, ok := x.(*ssa.FieldAddr)
+			if !ok {
+				continue
+			}
+			nt := derefNamed(fa.X.Type())
+			if nt == nil || nt.Obj().Name() != "Server" {
+				continue
+			}
+			if _, isSig := fa.Type().Underlying().(*types.Pointer).Elem().Underlying().(*types.Signature); isSig {
+				return true
+			}
+		}
+		return false
+	}
+	n, sites := 0, 0
+	var bad []string
+	for _, f := range all {
+		li := computeLocks(f, "Server", "lock", lkNone)
+		if li.touches {
+			n++
+		}
+		allInstrs(f, func(in ssa.Instruction) {
+			call, ok := in.(*ssa.Call)
+			if !ok || call.Call.IsInvoke() || call.Call.StaticCallee() != nil {
+				return
+			}
+			if _, isB := call.Call.Value.(*ssa.Builtin); isB || !isCallbackField(call.Call.Value) {
+				return
+			}
+			sites++
+			if li.at[in] != lkNone {
+				bad = append(bad, fmt.Sprintf("%s: %s calls %s with the %s held", c.pos(call.Pos()), fnDisplay(f), describeValue(call.Call.Value), lkName(li.at[in])))
+			}
+		})
+	}
+	r.check(n > 0 && sites > 0 && len(bad) == 0, rule, "Server callbacks", "", fmt.Sprintf("%d callback call sites, none under the lock", sites), "%s: while the owner's callback runs, a second start blocks instead of being refused and ShutdownContext blocks on the lock whatever its context says", strings.Join(uniqStrings(bad), "; "))
+}
+
+// refusalDoesNotWait: the way out of ShutdownContext for a server that is not started waits for nothing: between the
+// not-started edge and the return there is no channel receive and no select.
+func refusalDoesNotWait(c *Ctx, r *Report, rule string) {
+	r.rule(rule, 1, "ShutdownContext refuses a server that is not started without waiting for anything")
+	fn := c.ssaFunc("Server.ShutdownContext")
+	if fn == nil {
+		r.cerr(rule, "Server.ShutdownContext", "function not found")
+		return
+	}
+	r.fn("Server.ShutdownContext")
+	n := 0
+	var bad []string
+	for _, b := range fn.Blocks {
+		iff, ok := b.Instrs[len(b.Instrs)-1].(*ssa.If)
+		if !ok {
+			continue
+		}
+		atom, pol := condAtom(iff.Cond)
+		if !anyIn(sliceOf(atom), readsField("Server", "started")) {
+			continue
+		}
+		if _, isBin := atom.(*ssa.BinOp); isBin {
+			continue
+		}
+		n++
+		notStarted := b.Succs[1]
+		if !pol {
+			notStarted = b.Succs[0]
+		}
+		if len(notStarted.Preds) != 1 {
+			continue
+		}
+		for x := range reach(notStarted, nil, nil) {
+			// only what lies on the refusal side: blocks the not-started edge dominates
+			if x != notStarted && !notStarted.Dominates(x) {
+				continue
+			}
+			for _, in := range x.Instrs {
+				switch t := in.(type) {
+				case *ssa.Select:
+					bad = append(bad, fmt.Sprintf("%s: select", c.pos(t.Pos())))
+				case *ssa.UnOp:
+					if t.Op == token.ARROW {
+						bad = append(bad, fmt.Sprintf("%s: channel receive", c.pos(t.Pos())))
+					}
+				}
+			}
+		}
+	}
+	r.check(n > 0 && len(bad) == 0, rule, "Server.ShutdownContext", c.pos(fn.Pos()), "no wait on the not-started side", "the refusal of a server that is not started waits (%s): after a start that failed (init made a drain channel no serve loop will ever close) Shutdown blocks for ever instead of answering 'server not started'", strings.Join(uniqStrings(bad), "; "))
 }
